@@ -125,3 +125,152 @@ spec.contract(
 LEMMAS = []
 FUNCTIONS = ['find_days_to_exclude', 'expand_time_windows']
 CC_FUNCTIONS = ['TimeWindow.__post_init__']
+
+# ---------------------------------------------------------------------------
+# common_classes.EstimatedTimeSeriesWithConfidenceInterval.__init__ (C18
+# proved core): the container accepts exactly the frames with the four
+# columns whose every row has lower <= estimate <= upper.  `self` IS the
+# frame (the class derives from pd.DataFrame); super().__init__ builds it from
+# the arguments and is not interpreted.
+
+from mmverif.engine import frame_ledger as _fl                      # noqa
+from mmverif.engine.lib import ASSUMPTIONS as _ASSUME, builtin as _builtin, lib as _lib  # noqa
+from mmverif.engine.pandas_ledger import VBound as _VBound          # noqa
+
+R = z3.RealSort()
+CIF = sort_named('CIFrame')
+CI_NROWS = z3.Function('CI_NROWS', CIF, I)
+CI_CELL = z3.Function('CI_CELL', CIF, I, I, R)
+CI_COLS = z3.Function('CI_COLS', CIF, z3.SetSort(I))
+
+_ASSUME.extend([
+    'pandas (series container): after DataFrame.__init__ the object is a '
+    'frame with a set of column names and real cells; set.issubset(columns) '
+    'is membership of names; df[a] > df[b] flags the rows where the cell of a '
+    'exceeds the cell of b; np.any(mask) is "some row is flagged"',
+])
+
+
+class VCIFrame(V):
+  kind = 'ciframe'
+
+  def __init__(self, t):
+    self.t = t
+
+  def flatten(self):
+    return [self.t]
+
+  def py_getattr(self, ex, name, node):
+    if name == 'columns':
+      return VCICols(self)
+    ex.unsupported(node, 'series container attribute %s' % name)
+
+  def py_getitem(self, ex, idx, node):
+    if isinstance(idx, VStr):
+      return VCICol(self, _fl.colcode(idx.s))
+    ex.unsupported(node, 'series container [%s]' % idx.kind)
+
+
+class VCICols(V):
+  kind = 'ciframe.columns'
+
+  def __init__(self, f):
+    self.f = f
+
+  def py_toset(self, ex, node):
+    return VSet(CI_COLS(self.f.t), I)
+
+
+class VCICol(V):
+  kind = 'ciframe.col'
+
+  def __init__(self, f, col):
+    self.f = f
+    self.col = col
+
+  def py_compare(self, ex, op, other, node):
+    import ast
+    if not (isinstance(other, VCICol) and other.f.t.eq(self.f.t)):
+      ex.unsupported(node, 'column comparison')
+    t, a, b = self.f.t, self.col, other.col
+    f = {ast.Gt: lambda x, y: x > y, ast.Lt: lambda x, y: x < y,
+         ast.GtE: lambda x, y: x >= y, ast.LtE: lambda x, y: x <= y}.get(
+             type(op))
+    if f is None:
+      ex.unsupported(node, 'column comparison operator')
+    return VCIMask(self.f, lambda i: f(CI_CELL(t, a, i), CI_CELL(t, b, i)))
+
+
+class VCIMask(V):
+  kind = 'ciframe.mask'
+
+  def __init__(self, f, pred):
+    self.f = f
+    self.pred = pred
+
+  def py_any(self, ex, node):
+    i = z3.Int(ex.ctx.sym('i'))
+    return VBool(z3.Exists([i], z3.And(i >= 0, i < CI_NROWS(self.f.t),
+                                       self.pred(i))))
+
+
+@_lib('numpy.any')
+def _np_any(ex, args, kwargs, node):
+  v = args[0]
+  if hasattr(v, 'py_any'):
+    return v.py_any(ex, node)
+  ex.unsupported(node, 'np.any of %s' % v.kind)
+
+
+class VSuper(V):
+  kind = 'super'
+
+  def py_getattr(self, ex, name, node):
+    if name == '__init__':
+      return _VBound(lambda ex_, a, k, n: NONE)
+    ex.unsupported(node, 'super().%s' % name)
+
+
+@_builtin('super')
+def _super(ex, args, kwargs, node):
+  return VSuper()
+
+
+def _ci_setup(ctx, env, values):
+  """`self` is the frame itself."""
+  f = VCIFrame(z3.Const(ctx.sym('self_frame'), CIF))
+  ctx.assume(CI_NROWS(f.t) >= 0)
+  values['self'] = f
+  env.vars['self'] = f
+
+
+def _ci_missing(s):
+  t = unwrap(s.self).t
+  return z3.Not(z3.And([z3.IsMember(_fl.colcode(c), CI_COLS(t))
+                        for c in ('date', 'estimate', 'lower', 'upper')]))
+
+
+def _ci_bad(s):
+  t = unwrap(s.self).t
+  i = z3.Int('i!ci')
+  est, lo, up = (_fl.colcode(c) for c in ('estimate', 'lower', 'upper'))
+  return z3.Exists([i], z3.And(i >= 0, i < CI_NROWS(t), z3.Or(
+      CI_CELL(t, lo, i) > CI_CELL(t, est, i),
+      CI_CELL(t, up, i) < CI_CELL(t, est, i))))
+
+
+cspec.contract(
+    'EstimatedTimeSeriesWithConfidenceInterval.__init__',
+    params={'args': TOpaque('Args'), 'kwargs': TOpaque('KwDict')},
+    modifies=[], props=('C18',), setup=_ci_setup,
+    raises={
+        'KeyError': ('one of the columns date / estimate / lower / upper is '
+                     'missing', _ci_missing),
+        'ValueError': ('the columns are present and some row has lower > '
+                       'estimate or upper < estimate',
+                       lambda s: z3.And(z3.Not(_ci_missing(s)), _ci_bad(s))),
+    },
+    ensures=[('C18 an accepted series has lower <= estimate <= upper on '
+              'every row', lambda s: z3.Not(_ci_bad(s)))])
+
+CC_FUNCTIONS.append('EstimatedTimeSeriesWithConfidenceInterval.__init__')
